@@ -3,14 +3,14 @@
 (* a behaviour of BlockStore; every logged observation (Get result, index     *)
 (* walk after reopen, the index file record by record) must be what the       *)
 (* specification's state says.  Many traces are concatenated with "Reset".    *)
-EXTENDS BlockStore, Json
+EXTENDS BlockStore, Json, TraceOpts
 
 CONSTANT CmpPos      \* TRUE: positions/lengths in the index file are compared (uncompressed store)
 
 Trace == ndJsonDeserialize("trace.ndjson")
 
 VARIABLE l
-BLenTrace == LET o == JsonDeserialize("opts.json") IN [b \in Blocks |-> o.blenseq[b]]
+BLenTrace == [b \in Blocks |-> BLenSeq[b]]    \* (a JsonDeserialize here is re-evaluated at every use of BLen and leaks a file handle each time)
 tvars == <<vars, l>>
 
 Ev(e) == l <= Len(Trace) /\ Trace[l].ev = e /\ l' = l + 1
